@@ -146,6 +146,11 @@ func specCheck(prop string, extra ...regexp2.CompileOption) func(c *core.Ctx, ca
 			return outs
 		}
 		for k, i := range idx {
+			if res[k] == core.DriverTimeout {
+				// the specification's matcher is exponential on some nested loops where the engine is not
+				outs[i].Buckets = append(outs[i].Buckets, "model-timeout")
+				continue
+			}
 			if res[k] != goAns[i] {
 				// The specification is the property's definition: a disagreement IS a failing input.
 				outs[i].Fail = &core.Failure{Kind: "impl-violation", Key: prop + ":spec-mismatch:" + classify(cases[i].Ast, cases[i].Opts),
@@ -319,6 +324,10 @@ func specTreeCheck(prop string) func(c *core.Ctx, cases []specCase) []core.Outco
 			return outs
 		}
 		for k, i := range idx {
+			if res[k] == core.DriverTimeout {
+				outs[i].Buckets = append(outs[i].Buckets, "model-timeout")
+				continue
+			}
 			if res[k] != goAns[i] {
 				outs[i].Fail = &core.Failure{Kind: "correspondence-break", Key: prop + ":tree-mismatch:" + classify(cases[i].Ast, cases[i].Opts),
 					Summary:  fmt.Sprintf("the specification run on the engine's own reduced tree differs from the engine's result: pattern %q options %s input %q start %d", cases[i].Pattern, cases[i].Opts, string(cases[i].Text), cases[i].Start),
